@@ -288,7 +288,7 @@ def _check(oc, prop, tier, seed, replay, workdir):
             oc.transitions += r["states"]
             model_results.append({"run": name, "result": what, "distinct_states": r["distinct"], "states_generated": r["states"], "depth": r["depth"]})
     # written-out samples
-    for path, meta in traces[:3]:
+    for path, meta in [t for t in traces if t[1].get("g") in (3, 8, 9) or replay][:3]:
         with open(path) as fh:
             for i, ln in enumerate(fh):
                 if i in (1, 25):
